@@ -26,6 +26,7 @@ class Gen:
         import suit_generator.suit.types.keys as k
         self.c, self.m, self.s, self.e, self.p, self.k = c, m, s, e, p, k
         self.rng, self.tmp, self.max_depth, self.big = rng, tmpdir, max_depth, big
+        self.ambiguous = False
         self.files = {}
         self.reach = {}
         self.nfile = 0
@@ -218,7 +219,10 @@ class Gen:
         parts = []
         for _ in range(self.pick([0, 1, 2, 3])):
             v = self.rng.randrange(5)
-            if v == 0:
+            if self.ambiguous and self.rng.random() < 0.3:
+                # shapes whose byte string is also the encoding of another alternative (DESIGN.md F4)
+                parts.append(self.pick(["é", "1", "nRF54H20_cpuapp", "~", "0123456789abcde"]))
+            elif v == 0:
                 parts.append(self.pick(["M", "I", "C"]))
             elif v == 1:
                 parts.append(self.pick([0, 1, 2, 23, 24, 255, 256, 0x0E0AA000, 0x1000]))
